@@ -18,6 +18,7 @@ run_demo() { cargo test --offline --all-features --test "$demo_name" >"$out/demo
 run_demo without; rc_without=$?
 git apply "$out/change$n.diff" || { echo "change does not apply"; exit 2; }
 run_demo with; rc_with=$?
+rm -f "tests/$demo_name.rs"   # the demo itself must not count as part of the existing suite
 cargo test --offline >"$out/suite$n.log" 2>&1; rc_suite=$?
 pinned="$(grep -E '^test result' "$out/suite$n.log" | head -1)"
 cargo test --offline --all-features --lib >"$out/lib$n.log" 2>&1; rc_lib=$?
